@@ -240,7 +240,9 @@ func rep(s string, n int) string { return strings.Repeat(s, n) }
 
 func c06FixedList() []c06Fixed {
 	var l []c06Fixed
-	add := func(class, hint, src string) { l = append(l, c06Fixed{class, hint, func() []byte { return []byte(src) }}) }
+	add := func(class, hint, src string) {
+		l = append(l, c06Fixed{class, hint, func() []byte { return []byte(src) }})
+	}
 	lazy := func(class, hint string, f func() string) {
 		l = append(l, c06Fixed{class, hint, func() []byte { return []byte(f()) }})
 	}
